@@ -149,12 +149,19 @@ def body(case, ctx):
                 for k in sorted(dreg):
                     target.duration_registry.set_registry_at(k, second["dreg"].get(k, dreg[k]))
                     dreg2[k] = second["dreg"].get(k, dreg[k])
+            # stage 1: only the registry values changed (still under the program's own global setting)
+            if dreg2 != dreg:
+                _, info1 = M.unroll(root, g, dreg2)
+                M.schedule(um, g, dreg2)
+                if not info1["ambiguous"] and not info["ambiguous"]:
+                    compare_times(ctx, um, mapping2, "reconfigured", dict(facts, second="registry"))
+            # stage 2: additionally a different global setting
             with P.global_override(second["g"]):
                 um2, info2 = M.unroll(root, second["g"], dreg2)
                 # same structure, new durations: re-schedule the matched model tree in place
                 M.schedule(um, second["g"], dreg2)
                 if not info2["ambiguous"] and not info["ambiguous"]:
-                    compare_times(ctx, um, mapping2, "reconfigured", dict(facts, second=True))
+                    compare_times(ctx, um, mapping2, "reconfigured", dict(facts, second="global"))
 
 
 def parts():
